@@ -446,7 +446,7 @@ pub fn run_lib(dir: &Path, name: &str, source: &[u8], spec: &CompressSpec, inj: 
 
 pub fn run_case(dir: &Path, name: &str, source: &[u8], case: &CCase, inj: &Injection) -> CObs {
     match case.writer {
-        Writer::Lib => run_lib(dir, name, source, &case.spec, inj, inj.seed | 1),
+        Writer::Lib => run_lib(dir, name, source, &case.spec, inj, (inj.seed >> 3).wrapping_add(source.len() as u64)),
         _ => run_cli(dir, name, source, &case.spec, inj),
     }
 }
@@ -491,6 +491,20 @@ pub fn worker_libcompress(spec_path: &str) -> i32 {
         },
     };
     let rt = crate::exec::rt_multi(v["workers"].as_u64().unwrap() as usize);
+    if frag_seed % 2 == 0 {
+        // Sink variant: buffering writer handed over by value.
+        return match rt.block_on(crate::lib_drv::lib_compress_to_file(source, &spec, std::path::Path::new(v["out"].as_str().unwrap()))) {
+            Ok(()) => {
+                // let the runtime's blocking file operations settle before exiting
+                drop(rt);
+                0
+            }
+            Err(e) => {
+                eprintln!("libcompress failed: {}", e);
+                1
+            }
+        };
+    }
     match rt.block_on(crate::lib_drv::lib_compress(source, &spec)) {
         Ok(bytes) => {
             std::fs::write(v["out"].as_str().unwrap(), bytes).expect("write out");
